@@ -31,6 +31,8 @@ type ReplayFile struct {
 	Violation  *Violation        `json:"violation,omitempty"`
 	History    *History          `json:"history,omitempty"`
 	GiantEvery uint64            `json:"giant_every,omitempty"` // scenario generation parameter of the original run (history / seed replays regenerate scenarios)
+	Probe      *Probe            `json:"probe,omitempty"`       // O4b: the operation whose answer differs between this history and a brand-new process
+	ProbeWant  string            `json:"probe_want,omitempty"`  // ... and what a brand-new process answers
 	Signature  string            `json:"signature"`
 	RaceSig    string            `json:"race_signature,omitempty"`
 	Minimised  bool              `json:"minimised"`
@@ -117,6 +119,7 @@ type summary struct {
 	SiteHits    []uint64          `json:"site_hits"`
 	PairCount   int               `json:"site_pairs"`
 	Samples     []sample          `json:"samples"`
+	FreshProbes []Probe           `json:"fresh_probes,omitempty"`
 	WallMS      int64             `json:"wall_ms"`
 	First       uint64            `json:"first_run"`
 	Last        uint64            `json:"last_run"`
@@ -139,6 +142,8 @@ func main() {
 		dumpOn    = flag.Bool("dump-on", false, "enable -dump")
 		giant     = flag.Uint64("giant-every", 0, "every n-th run index is a giant-input scenario (0: never)")
 		cpuprof   = flag.String("cpuprofile", "", "write a CPU profile (development)")
+		nProbes   = flag.Int("probes", 0, "sample this many operations (with their solo results) for re-evaluation in fresh processes")
+		probeFile = flag.String("probe", "", "evaluate the probe in this file in this fresh process and print the result")
 		execs     = flag.Bool("execs", false, "emit the explicit execution (scenario + decisions) of every run")
 	)
 	flag.Parse()
@@ -162,6 +167,22 @@ func main() {
 		out.Write(b)
 		out.WriteByte('\n')
 	}
+
+	if *probeFile != "" {
+		b, err := os.ReadFile(*probeFile)
+		var p Probe
+		if err != nil || json.Unmarshal(b, &p) != nil {
+			fmt.Fprintln(os.Stderr, "zsim: bad probe file")
+			os.Exit(2)
+		}
+		emit(struct {
+			T   string `json:"t"`
+			Res string `json:"res"`
+		}{"probe", runProbe(&p)})
+		return
+	}
+	probeCap = *nProbes
+	probeRand = zsimrt.NewRand(*base ^ (*from+1)*0x9e3779b97f4a7c15)
 
 	c := loadCorpus()
 
@@ -267,6 +288,7 @@ func main() {
 			runtime.GC()
 		}
 	}
+	sum.FreshProbes = probes
 	sum.ClockReads = zsimrt.ClockReads
 	sum.SiteHits = zsimrt.SiteHits
 	sum.PairCount = zsimrt.PairCount()
@@ -375,7 +397,7 @@ func doReplay(path string, emit func(any), out *bufio.Writer) int {
 		return 2
 	}
 	var rf ReplayFile
-	if err := json.Unmarshal(b, &rf); err != nil || rf.Scenario == nil {
+	if err := json.Unmarshal(b, &rf); err != nil || rf.Scenario == nil && rf.Probe == nil {
 		fmt.Fprintln(os.Stderr, "zsim: bad replay file:", err)
 		return 2
 	}
@@ -390,6 +412,16 @@ func doReplay(path string, emit func(any), out *bufio.Writer) int {
 			sc := genScenario(r, run, seed, h.ColdFirst && j == 0, c)
 			runScenario(sc, r, nil)
 		}
+	}
+	if rf.Probe != nil {
+		// O4b replay: after the history, the operation (run alone) must answer what a brand-new process answers
+		got := runProbe(rf.Probe)
+		if got != rf.ProbeWant {
+			emit(violRec{T: "viol", Run: rf.Run, Seed: rf.Seed, Viol: &Violation{Oracle: "O4", Task: -1, Op: -1, Kind: rf.Probe.Op.Kind,
+				What: "after the recorded history of calls, this call answers differently from a brand-new process", Want: rf.ProbeWant, Got: got}})
+		}
+		out.Flush()
+		return 0
 	}
 	if raceEnabled {
 		fmt.Fprintf(os.Stderr, "@@RUN %d %d\n", rf.Run, rf.Seed)
